@@ -226,7 +226,7 @@ def register(reg):
              'implies(%s.tolerant_parsing and %s, result is True)' % (WW, ISPE)),
             ('tolerant-mode-remembers-the-error',
              'implies(%s.tolerant_parsing and %s, self.recovery_from_exception is exc_value)' % (WW, ISPE)),
-        ],
+        ] + [(n + '-afterwards', c.replace('self.', WW + '.')) for n, c in WALKER_INV],
         modifies=[('exc_value.lineno', ('opt', 'int')), ('exc_value.colno', ('opt', 'int')),
                   ('self.recovery_from_exception', lambda it, hint, cur=None: cur),
                   (WW + '._line_no_calc', make_calc_field)]))
@@ -339,6 +339,10 @@ def register(reg):
     c_assumed.setup = setup_pc
     c_assumed.requires = c_assumed.requires + [(n, c) for n, c in WALKER_INV]
     c_assumed.modifies = c_assumed.modifies + [('self._line_no_calc', make_calc_field)]
+    # the calculator, once created, stays consistent with the walker (so that a second parse_content call meets its precondition)
+    c_assumed.ensures = c_assumed.ensures + [(n + '-afterwards', c) for n, c in WALKER_INV]
+    for _k, _v in c_assumed.raises.items():
+        _v['ensures'] = list(_v['ensures']) + [(n + '-afterwards', c) for n, c in WALKER_INV]
     reg.spec('parser_met_end_of_stream')(lambda it: bool(it.ctx.ghost.get('pic_eos')))
     reg.spec('parser_returned')(lambda it: it.ctx.ghost.get('pic_result'))
     c_verify = Contract(
